@@ -32,6 +32,8 @@ MODE_SPEC = {
 PMODE = {"upstream_http": "upstream", "upstream_https": "upstream", "reverse_http": "reverse", "reverse_https": "reverse"}
 HOSTS = {1: "o1.test", 2: "o2.test"}
 ALL_MODES = tuple(MODE_SPEC)
+FL_QUICK = ("get", "ws", "post")
+FL_ALL = ("get", "ws", "post", "head", "expect", "h2c")
 
 _ENV = None
 _SCRATCH: Path | None = None
@@ -77,6 +79,9 @@ class Run:
         self.sim.cb_request = self._on_head
         self.nreq = 0
         self.answered: set[int] = set()
+        # what the client is doing (stimulus): recorded with every head mitmproxy writes while it does it
+        self.src = "proxy_request" if self.mode in ("regular", "upstream_http", "upstream_https") else "direct"
+        self.fl = ""
 
     # --- projection ---------------------------------------------------------------------------------
     def _peer(self, ep) -> str:
@@ -109,7 +114,7 @@ class Run:
             kind = "origin"
         self.trace.append({"k": "req", "mode": self.pmode, "auth": self.auth, "peer": self._peer(obs.ep), "level": level,
                            "kind": kind, "scheme": obs.scheme if kind == "absolute" else "", "tls": tls,
-                           "cred": has_cred(obs.raw)})
+                           "cred": has_cred(obs.raw), "src": self.src, "fl": "" if kind == "connect" else self.fl})
 
     def _scans(self):
         from vf import proxysim
@@ -175,9 +180,23 @@ class Run:
         self._drain()
         return True
 
-    def _get(self, target, host):
+    FLAVOURS = {
+        # flavour -> (method, extra header fields, body)
+        "get": ("GET", [], b""),
+        "ws": ("GET", [("Connection", "Upgrade"), ("Upgrade", "websocket"), ("Sec-WebSocket-Key", "dGhlIHNhbXBsZSBub25jZQ=="),
+                       ("Sec-WebSocket-Version", "13")], b""),
+        "post": ("POST", [("Content-Type", "application/x-www-form-urlencoded")], b"x=1&y=2"),
+        "head": ("HEAD", [], b""),
+        "expect": ("PUT", [("Expect", "100-continue")], b"payload"),
+        "h2c": ("GET", [("Connection", "Upgrade, HTTP2-Settings"), ("Upgrade", "h2c"), ("HTTP2-Settings", "AAMAAABkAAQAAP__")], b""),
+    }
+
+    def _get(self, target, host, flavour="get"):
         self.nreq += 1
-        self.sim.client.request("GET", target.replace("{n}", str(self.nreq)), [("Host", host), ("User-Agent", "verif")])
+        self.fl = flavour
+        method, extra, body = self.FLAVOURS[flavour]
+        self.sim.client.request(method, target.replace("{n}", str(self.nreq)),
+                                [("Host", host), ("User-Agent", "verif")] + extra, body)
         self._drain()
 
     def op(self, op) -> bool:
@@ -189,18 +208,20 @@ class Run:
         if k == "plain":
             h = HOSTS[op[1]]
             port = op[2] if len(op) > 2 else 80  # the same host:port may be asked for with both schemes
+            fl = op[3] if len(op) > 3 else "get"
             if explicit:
-                self._get(f"http://{h}:{port}/r{{n}}", f"{h}:{port}")
+                self._get(f"http://{h}:{port}/r{{n}}", f"{h}:{port}", fl)
             else:
-                self._get("/r{n}", h)
+                self._get("/r{n}", h, fl)
         elif k == "abs_https":
             h = HOSTS[op[1]]
             port = op[2] if len(op) > 2 else 443
-            self._get(f"https://{h}:{port}/r{{n}}", f"{h}:{port}")
+            self._get(f"https://{h}:{port}/r{{n}}", f"{h}:{port}", op[3] if len(op) > 3 else "get")
         elif k == "connect":
             h = HOSTS[op[1]]
             port = 443 if op[2] == "tls" else 80
             self.tunnel_host = h
+            self.src, self.fl = "client_tunnel", ""
             c.request("CONNECT", f"{h}:{port}", [("Host", f"{h}:{port}")])
             self._drain()
             if not c.responses or c.responses[-1].status != 200:
@@ -218,7 +239,7 @@ class Run:
             if not c.tls.done:
                 return False
         elif k == "inner":
-            self._get("/r{n}", getattr(self, "tunnel_host", HOSTS[1]))
+            self._get("/r{n}", getattr(self, "tunnel_host", HOSTS[1]), op[1] if len(op) > 1 else "get")
         else:
             return False
         return True
@@ -251,7 +272,8 @@ class Check(core.PropertyCheck):
     PROCS = 4
     REQUIRED_WITNESSES = ("cred_in_connect", "cred_in_forwarded", "cred_to_reverse_target", "auth_tunnel_tls",
                           "auth_tunnel_plain", "auth_other_mode_regular", "auth_other_mode_transparent",
-                          "auth_other_mode_socks5", "auth_reverse_tls", "auth_unset")
+                          "auth_other_mode_socks5", "auth_reverse_tls", "auth_unset", "auth_upstream_ws_handshake",
+                          "auth_flavour_other")
     REQUIRED_ACTIONS = ("Plain", "AbsHttps", "Connect", "StartTls", "Inner")
     ASSUMPTIONS = (
         "credentials are recognised as the base64 token of the configured user:password (or the clear text) in the "
@@ -270,47 +292,56 @@ class Check(core.PropertyCheck):
     def mon_constants(self, tier):
         return {}
 
-    def model_constants(self, tier):
+    def _consts(self, steps, hosts, flavours):
         # Ports: every host:port is requested with both schemes (https then http on :443, http then https on :80, ...)
-        return {"Modes": frozenset(ALL_MODES), "MaxSteps": 3 if tier == "quick" else 4,
-                "Hosts": frozenset({1}) if tier == "quick" else frozenset({1, 2}), "Ports": frozenset({80, 443})}
+        # Flavours: kinds of requests; the route of a request must not depend on them
+        return {"Modes": frozenset(ALL_MODES), "MaxSteps": steps, "Hosts": frozenset(hosts),
+                "Ports": frozenset({80, 443}), "Flavours": frozenset(flavours)}
+
+    def model_constants(self, tier):
+        # exhaustive + dumped instance: quick 2 steps, thorough 3 steps (one host, three flavours)
+        return self._consts(2 if tier == "quick" else 3, {1}, FL_QUICK)
 
     @staticmethod
     def _ops(beh):
         ops = []
         for name, args, _st in beh[1:]:
             if name == "Plain":
-                ops.append(["plain", args[0], args[1]])
+                ops.append(["plain", args[0], args[1], args[2]])
             elif name == "AbsHttps":
-                ops.append(["abs_https", args[0], args[1]])
+                ops.append(["abs_https", args[0], args[1], args[2]])
             elif name == "Connect":
                 ops.append(["connect", args[0], args[1]])
             elif name == "StartTls":
                 ops.append(["start_tls"])
             elif name == "Inner":
-                ops.append(["inner"])
+                ops.append(["inner", args[0]])
         return ops
 
     def scenarios(self, ctx, models):
         g = models[0].graph
         rng = random.Random(ctx.seed + 24)
         # every transition of the graph at least once, plus random paths
-        behs = g.edge_cover(ctx.rng, max_len=6, tail=2) + g.random_walks(ctx.rng, 500 if ctx.quick else 6000, 5)
-        for b in behs:
+        behs = [(b, "model") for b in g.edge_cover(ctx.rng, max_len=6, tail=2)]
+        # deeper behaviours of the same model (tlc -simulate): more steps, two hosts, all flavours
+        sim, _r = ctx.simulate(self.MODEL, self._consts(4 if ctx.quick else 5, {1, 2}, FL_ALL),
+                               num=900 if ctx.quick else 9000, depth=6)
+        behs += [(b, "simulate") for b in sim]
+        for b, source in behs:
             st0 = b[0][2]
             ops = self._ops(b)
             if not ops:
                 continue
             sc = {"mode": st0["mode"], "auth": bool(st0["auth"]), "eager": bool(st0["eager"]), "ops": ops,
                   "swp": rng.random() < 0.25}
-            yield core.Scenario(sc, predicted=core.predicted_events(b) + [{"k": "end"}], source="model")
+            yield core.Scenario(sc, predicted=core.predicted_events(b) + [{"k": "end"}], source=source)
         # fixed suite: the same host:port with both schemes, both orders, on one client connection
         for mode in ("upstream_http", "upstream_https", "regular"):
             for port in (80, 443):
                 for first, second in (("abs_https", "plain"), ("plain", "abs_https")):
                     for eager in (False, True):
                         yield core.Scenario({"mode": mode, "auth": True, "eager": eager, "swp": False,
-                                             "ops": [[first, 1, port], [second, 1, port], [first, 1, port]]},
+                                             "ops": [[first, 1, port, "get"], [second, 1, port, "get"], [first, 1, port, "get"]]},
                                             source="suite")
         # beyond the model's bounds: longer sequences, more hosts are not needed for this property; what is added here
         # are option variations the model does not know (they must not move the credentials)
@@ -325,18 +356,18 @@ class Check(core.PropertyCheck):
                 while len(ops) < n:
                     x = rng.random()
                     if x < 0.35:
-                        ops.append(["plain", rng.choice([1, 2]), rng.choice([80, 443])])
+                        ops.append(["plain", rng.choice([1, 2]), rng.choice([80, 443]), rng.choice(FL_ALL)])
                     elif x < 0.6:
-                        ops.append(["abs_https", rng.choice([1, 2]), rng.choice([80, 443])])
+                        ops.append(["abs_https", rng.choice([1, 2]), rng.choice([80, 443]), rng.choice(FL_ALL)])
                     else:
                         ops.append(["connect", rng.choice([1, 2]), rng.choice(["tls", "plain"])])
-                        ops += [["inner"]] * rng.randint(1, 3)
+                        ops += [["inner", rng.choice(FL_ALL)] for _ in range(rng.randint(1, 3))]
                         break
             else:
                 if rng.random() < 0.5:
-                    ops = [["start_tls"]] + [["inner"]] * rng.randint(1, 4)
+                    ops = [["start_tls"]] + [["inner", rng.choice(FL_ALL)] for _ in range(rng.randint(1, 4))]
                 else:
-                    ops = [["plain", 1, 80]] * rng.randint(1, 4)
+                    ops = [["plain", 1, 80, rng.choice(FL_ALL)] for _ in range(rng.randint(1, 4))]
             yield core.Scenario({"mode": mode, "auth": rng.random() < 0.8, "eager": rng.random() < 0.4, "ops": ops,
                                  "swp": rng.random() < 0.3, "options": rng.choice(variations)}, source="random")
 
